@@ -532,6 +532,17 @@ def app_case(role, flavour, name):
 
                 extra['request_stream'] = ('special', lambda h, p: StreamFromGenerator(gen))
                 frames, off = [R.enc_request(R.REQUEST_STREAM, sid, b'boom', n=5)], {sid}
+            elif name in ('generator-factory-raises', 'async-generator-factory-raises'):
+                # the source cannot even be opened: the factory handed to the library raises when it is called
+                def factory():
+                    raise AppRaise('generator factory raises')
+
+                if name.startswith('async'):
+                    from rsocket.streams.stream_from_async_generator import StreamFromAsyncGenerator as Src
+                else:
+                    from rsocket.streams.stream_from_generator import StreamFromGenerator as Src
+                extra['request_stream'] = ('special', lambda h, p: Src(factory))
+                frames, off = [R.enc_request(R.REQUEST_STREAM, sid, b'boom', n=5)], {sid}
             elif name == 'async-generator-raises':
                 from rsocket.streams.stream_from_async_generator import StreamFromAsyncGenerator
 
@@ -694,7 +705,7 @@ Bench_default = {}
 APP_CASES_SERVER = (['handler-%s-raises%s' % (m, a) for m in ('request_response', 'request_stream', 'request_channel',
                                                              'request_fire_and_forget', 'on_metadata_push') for a in ('', '-after-await')]
                     + ['future-fails', 'future-cancelled', 'future-cancelled-later', 'publisher-raises-subscribe', 'publisher-raises-request', 'publisher-raises-cancel',
-                       'generator-raises', 'async-generator-raises', 'channel-subscriber-raises-S', 'channel-subscriber-raises-N',
+                       'generator-raises', 'async-generator-raises', 'generator-factory-raises', 'async-generator-factory-raises', 'channel-subscriber-raises-S', 'channel-subscriber-raises-N',
                        'channel-subscriber-raises-C', 'channel-subscriber-raises-E']
                     + ['router-raises-%s' % m for m in ('request_response', 'request_stream', 'request_channel', 'request_fire_and_forget', 'on_metadata_push')]
                     + ['router-garbage:%s:%s' % (g, m) for g in ('truncated-entry', 'length-past-end', 'lone-byte', 'zero-length-name', 'non-utf8-route', 'tag-length-past-end', 'huge-custom-name',
